@@ -83,7 +83,20 @@ func NewVmContext(
 // VerifStubHook lets the simulator observe every stub execution (nil in normal use).
 var VerifStubHook func(kind string, contract []byte, script string)
 
-func runScript(cs *statedb.ContractState, script string, ctx *vmContext) (string, []*types.Event, *big.Int, error) {
+// runScript mirrors the real VM's discipline: the contract storage is rolled back to
+// the savepoint taken at call start when the script fails, and accounts touched by the
+// call are written only on success.
+func runScript(cs *statedb.ContractState, script string, ctx *vmContext) (rv string, evs []*types.Event, usedFee *big.Int, rerr error) {
+	savepoint := cs.Snapshot()
+	defer func() {
+		if rerr != nil {
+			_ = cs.Rollback(savepoint)
+		}
+	}()
+	return runScriptBody(cs, script, ctx)
+}
+
+func runScriptBody(cs *statedb.ContractState, script string, ctx *vmContext) (string, []*types.Event, *big.Int, error) {
 	var (
 		events []*types.Event
 		ret    string
